@@ -1045,10 +1045,37 @@ func genExpr(t *rapid.T) (string, []selSpec) {
 			expr = expr + " " + op + " " + ops[i]
 		}
 	}
+	// A selector-less source joined to the selectors (`vector(1) * on() group_left() (X)`, `time() - X`): the
+	// selectors then hang off a source that has no vector selector of its own, and every one of them must still
+	// get its verdict (seed C16-8: the walk over sources skipped the joins of such a source). Only drawn when no
+	// operand carries a fallback, so that the fallback classes above keep their meaning.
+	if fb := hasFallback(ops); !fb && rapid.IntRange(0, 5).Draw(t, "selectorless") == 0 {
+		lhs := rapid.SampledFrom([]string{"vector(1)", "vector(0)", "vector(1)", "time()", "scalar(vector(1))"}).Draw(t, "selectorless.lhs")
+		op := "*"
+		if strings.HasPrefix(lhs, "vector") {
+			op = rapid.SampledFrom([]string{"* on() group_left()", "+ on() group_left()", "* on()", "+ on()", "*", "-"}).Draw(t, "selectorless.op")
+		} else {
+			op = rapid.SampledFrom([]string{"*", "-", "+"}).Draw(t, "selectorless.op")
+		}
+		if n == 1 {
+			expr = lhs + " " + op + " " + expr
+		} else {
+			expr = lhs + " " + op + " (" + expr + ")"
+		}
+	}
 	if rapid.IntRange(0, 3).Draw(t, "topcmp") == 0 {
 		expr = "(" + expr + ") > 0"
 	}
 	return expr, sels
+}
+
+func hasFallback(ops []string) bool {
+	for _, o := range ops {
+		if strings.Contains(o, " or vector(") {
+			return true
+		}
+	}
+	return false
 }
 
 const hour = 3600
